@@ -74,6 +74,12 @@ STRESS += [
     "defvar a = !foreach(); defvar b = !subst(); defvar c = !foldl(); defvar d = !filter(); defvar l = !filter(x, [1, 2], !eq(x, 1));",
     "class A { bits<4> f; let f{0...9223372036854775807, 0...9223372036854775807, 0...1} = 0; let f{} = 0; let f{1-} = 0; let f{18446744073709551615} = 1; }",
     "class A { bits<9223372036854775807> a; bits<4> b = { a, a, a }; bits<18446744073709551615> c; bits<2> d = { c, c }; bits<18446744073709551616> e; }",
+    # a declaration that names itself in each of its own parts (the windows between "name registered" and "declaration complete")
+    "class Tree<int depth, list<Tree> kids = [Tree<0>]> { int d = depth; } def leaf : Tree<1>; class A<int x = A<1>.f> { int f = x; } def a : A<2>;",
+    "class S<S s = S<?>, list<S> l = [S<>]> : S<S<>> { S me = S<me>; list<S> all = [S<>, me]; } def s0 : S<s0>; def s1 : S<S<s1>> { S x = s1; }",
+    "multiclass MS<int n = MS> : MS<n> { defm _r : MS<n>; def _d : MS; } defm ms : MS<1>, MS<ms>; defset list<DS> DS = { def ds : DS; defvar v = DS; }",
+    "defvar dv = dv; defvar dl = [dl]; defvar dq = !add(dq, 1); foreach fi = [fi] in def fd#fi : fd#fi; foreach fj = !foreach(fj, [1], fj) in def fe#fj;",
+    "class Node<int v>; class Use<Node n = Node<1>>; class Node<int v, list<Node> next = [Node<0>]> { int w = v; } def n0 : Node<1, [Node<2>]>; def u0 : Use<n0>;",
     "multiclass M { def a; } defm x : M, ; multiclass N { defm y : M, ; } class C<int x>; defm dm : M, C<1 = 2>;",
     "class A<int x, int y = 0>; def d : A<x = 1, x = 2>; def e : A<y = 1>; def f : A<1, 2, 3>;",
     "class Base { int v = 0; } class A : Base; class B : Base; class Z; def a : A; def b : B; def z : Z; defvar x = !if(1, a, b); defvar y = x.v; "
